@@ -353,6 +353,12 @@ Fixpoint sconcat (l : list string) : string :=
 Definition caret_marks (len : nat) (L : Z) (prs : list prange) : string :=
   sconcat (map (fun k => caret_col (Z.of_nat k + 1) L prs) (seq 0 len)).
 
+(** The caret line under ANY source line: [for columnIndex, r := range line] visits the byte index of every character
+    start (Go decoding, [decode_all]); one mark per CHARACTER, decided by the byte column [columnIndex+1] of its first byte.
+    Display column = number of characters before the byte. *)
+Definition caret_marks_line (line : string) (L : Z) (prs : list prange) : string :=
+  sconcat (map (fun k => caret_col (Z.of_nat k + 1) L prs) (map fst (decode_all line))).
+
 (** ** Reading positions back from the file *)
 
 Definition expand_range (p : prange) : list (Z * Z) :=
